@@ -275,11 +275,16 @@ CHECKS["C07"] = dict(
          "/ extended / round caps, TLC checks on 1517 exact sample points per element that every "
          "point surely within half the local width of the centre line (spine displaced by the "
          "offset, mitred corners) or inside the cap is covered by gdstk's outline and that no point "
-         "beyond the join's reach or the cap plane is.",
+         "beyond the join's reach or the cap plane is. (c) Circular bends [M]: for one / two / "
+         "three corners (90 and 45 degrees, short shared legs, legs too short) x widths x offsets x "
+         "radii, the outline must be the swept region (3-tolerance band, as C08) of the line-and-arc "
+         "centre curve for SOME admissible set of bent corners: tangent lengths fit into every leg "
+         "and no further corner could be bent as well.",
     note="Trusted: TLC, Paths.tla, the harness's floating-point winding-number test of samples "
-         "against gdstk's outline. Curved spines and circular bends are not in the region check "
-         "(their centre curves are irrational); PATH-record equivalence follows from C01 for simple "
-         "paths. One known finding (taper + negative extension).",
+         "against gdstk's outline and, for bends, its construction of the exact centre curve. Curved "
+         "spines (arc / bezier sections) are not in the region check; bends only on one element; "
+         "PATH-record equivalence follows from C01 for simple paths. One known finding (taper + "
+         "negative extension).",
     design="4 C07")
 
 CHECKS["C08"] = dict(
